@@ -353,6 +353,39 @@ func C14(p *ir.Program, r *report.R) {
 		okPat := strings.Contains(pattern, "[0-9]{3,}") || strings.Contains(pattern, "\\d{3,}") || strings.Contains(pattern, "[0-9]+") || strings.Contains(pattern, "\\d+")
 		r.Check("K5", "autofile/rolled-file-name/writer~reader", p.Pos(rg.Pos()), okFmt && okPat, "writer format "+format+" (>= 3 digits) and reader pattern "+pattern+" (must accept 3 OR MORE digits)")
 	}
+	// what was written and not yet flushed is never thrown away: the head's buffered writer is Reset (or
+	// replaced) only after a Flush of the same writer in the same function (rotation happens on a timer
+	// while Write() leaves records in the buffer)
+	{
+		n := 0
+		for _, f := range p.Funcs {
+			if f.Pkg == nil || ir.RelPkg(f.Pkg.Pkg) != "libs/autofile" || f.Blocks == nil || strings.HasSuffix(p.Pos(f.Pos()), "_test.go") {
+				continue
+			}
+			var drops []ssa.Instruction
+			for _, call := range ir.Calls(f, "bufio.Writer.Reset") {
+				if strings.HasSuffix(Arg(call, 0), ".headBuf") {
+					drops = append(drops, call.(ssa.Instruction))
+				}
+			}
+			for _, s := range p.Stores(p.Field("libs/autofile", "Group.headBuf")) {
+				if s.Fn == f && s.Kind == "store" && !strings.HasPrefix(f.Name(), "OpenGroup") {
+					drops = append(drops, s.Instr)
+				}
+			}
+			for _, d := range drops {
+				n++
+				flushed := false
+				for _, fl := range ir.Calls(f, "bufio.Writer.Flush") {
+					if strings.HasSuffix(Arg(fl, 0), ".headBuf") && ir.Precedes(fl.(ssa.Instruction), d) {
+						flushed = true
+					}
+				}
+				r.Check("K2", "autofile.(*Group)."+f.Name()+"/buffer-flushed-before-discard", p.InstrPos(d), flushed, "the head buffer is flushed before it is reset or replaced")
+			}
+		}
+		r.Note("autofile: %d places that reset or replace the head buffer outside OpenGroup", n)
+	}
 }
 
 var _ = report.Discharged
